@@ -1276,7 +1276,7 @@ func CheckC13(c *Ctx) {
 		c.violate("backtest/write-once", site+".worker", fmt.Sprintf("writes=%d", writes), stratLoop.Pos(), "every (asset, strategy) pair must be written exactly once with the outputs of ComputeWithOutcome of that strategy on a fresh copy of the asset's snapshots")
 	}
 	c.errorOrientation("backtest/error-orientation", "backtest")
-	c.errorTestedFirst("backtest/error-tested", 3, "backtest")
+	c.errorTestedFirst("backtest/error-tested", 10, "backtest")
 	c.errorsLookedAt("backtest/error-dropped", map[string]string{}, "backtest")
 	c.errorFallThrough("backtest/error-fallthrough", "backtest")
 	c.lockPairing("backtest/lock", "backtest")
